@@ -98,10 +98,26 @@ theorem render_nil_or_slash (d : Loc) : render d = [] ∨ ∃ y, render d = y ++
     · right; exact ⟨[], by simp⟩
   · right; rw [h]; exact ⟨(if d.abs then ['/'] else []) ++ y, by simp⟩
 
+set_option linter.unusedSimpArgs false in
+/-- the body of `prettyPath(p, isDirectory)` regenerated from path.cc is the canonical transcription (robust against
+    reordering of independent tests and equivalent spellings: the proof only looks at the values of the five tests) -/
+theorem prettyPathWith_eq_canon (proc : Str → Str) (p : Str) (isDir : Bool) :
+    prettyPathWith proc p isDir = prettyCanonWith proc p isDir := by
+  unfold prettyPathWith prettyCanonWith
+  generalize proc p = r
+  by_cases h1 : r = [] <;> by_cases h2 : r = ['/'] <;> by_cases h3 : r.take (r.length - 1) = ['.', '.'] <;>
+  by_cases h4 : hasSuffix (r.take (r.length - 1)) ['/', '.', '.'] = true <;> cases isDir <;> simp_all
+
+/-- the one-argument overload regenerated from path.cc calls the two-argument one with `pathIndicatesDirectory p` -/
+theorem prettyPathAutoWith_eq (f : Str → Bool → Str) (p : Str) :
+    prettyPathAutoWith f p = f p (pathIndicatesDirectory p) := by
+  simp [prettyPathAutoWith]
+
 theorem prettyWith_render (d : Loc) (hd : d.Valid) (isDir : Bool) (proc : Str → Str) (p : Str)
     (hp : proc p = render d) : prettyPathWith proc p isDir = prettySpec d isDir := by
+  rw [prettyPathWith_eq_canon]
   obtain ⟨abs, ups, names⟩ := d
-  unfold prettyPathWith prettySpec
+  unfold prettyCanonWith prettySpec
   rw [hp]
   simp only [← List.dropLast_eq_take]
   rcases List.eq_nil_or_concat names with hn | ⟨ns, n, hn⟩
